@@ -1,6 +1,6 @@
 (* Proofs (C08): the root loop of filesystem.Run. *)
 From Coq Require Import List ZArith NArith Bool Arith Lia Permutation.
-From Scalibr Require Import Walk.Model Walk.Spec Walk.Sched Walk.Proofs Walk.Trace Walk.SpecProofs Walk.C01Proofs
+From Scalibr Require Import Walk.Model Walk.Spec Walk.Sched Walk.Proofs Walk.Trace Walk.SpecProofs Walk.C01Proofs Walk.Invariant Walk.PermProofs
   Walk.Perm Walk.Cases Walk.Witness.
 Import ListNotations.
 
@@ -90,3 +90,82 @@ Qed.
 
 Definition t_one_file : node := Dc DOT [Fc nA Reg 1 0].
 Definition t_empty : node := Dc DOT [].
+
+(* ------------------------------------------------------------------ plugin statuses over several roots *)
+Definition root_events (c : cfg) (t : node) : list event := flat_map (call_events c) (schedule c [] [DOT] t).
+
+Lemma run_fs_from_events c t st :
+  fault_free t = true -> no_limits c = true -> no_xpanic c -> c_paths c = [] -> s_stack st = [] ->
+  exists st', run_fs c t st = WOk st' Continue /\ s_stack st' = [] /\ s_events st' = s_events st ++ root_events c t.
+Proof.
+  intros FF NL NP P S. rewrite run_fs_whole by assumption.
+  pose proof (schedule_quiet_ff c t FF (s_stack st) [DOT]) as Q.
+  destruct (walk_node_quiet c [DOT] t st NL NP Q) as (st' & W & S' & N).
+  exists st'. split; [exact W|]. split; [congruence|].
+  rewrite <- (ns_events st'), N, ns_events, run_calls_events, S. reflexivity.
+Qed.
+
+Lemma root_events_observable c t : fault_free t = true -> forallb observable (root_events c t) = true.
+Proof.
+  intros FF. unfold root_events. rewrite forallb_flat_map. apply forallb_forall. intros h Hin.
+  eapply schedule_observable_ff; eassumption.
+Qed.
+
+Lemma fs_calls_root_events c t :
+  fault_free t = true -> no_limits c = true -> no_xpanic c -> c_paths c = [] -> fs_calls c t = calls (root_events c t).
+Proof.
+  intros FF NL NP P. destruct (whole_tree_run c t FF NL NP P) as (st & R & _ & _ & EV & _).
+  unfold fs_calls. rewrite R. cbn [wres_state]. rewrite EV. reflexivity.
+Qed.
+
+Lemma run_roots_events c : no_limits c = true -> no_xpanic c -> c_paths c = [] ->
+  forall roots st inv sts, forallb fault_free roots = true -> s_stack st = [] ->
+  s_events (rres_state (run_roots c roots st inv sts)) = s_events st ++ flat_map (root_events c) roots.
+Proof.
+  intros NL NP P. induction roots as [|t roots IH]; intros st inv sts FF S.
+  - cbn. rewrite app_nil_r. reflexivity.
+  - cbn [forallb] in FF. apply andb_true_iff in FF as [F1 F2].
+    destruct (run_fs_from_events c t st F1 NL NP P S) as (st1 & R & S1 & E).
+    cbn [run_roots flat_map]. rewrite R, (IH st1 _ _ F2 S1), E, <- app_assoc. reflexivity.
+Qed.
+
+(* the status of every plugin after a Run over several (fault-free) roots is the one the Extract calls of all roots
+   together dictate: every failed file of every root is listed, whatever root it lies in *)
+Theorem multiroot_statuses_lemma c roots :
+  forallb fault_free roots = true -> no_limits c = true -> no_xpanic c -> c_paths c = [] ->
+  roots <> [] -> c_exts c <> [] ->
+  run_statuses (run c roots) = map (fun e => (e, expected_status c (flat_map (fs_calls c) roots) e)) (c_exts c).
+Proof.
+  intros FF NL NP P NR NE. unfold run. destruct (c_exts c) as [|e0 es] eqn:EX; [contradiction|].
+  destruct (run_roots_law c NL NP P roots init_state [] [] FF eq_refl) as (inv' & sts' & st' & E & _ & _ & M).
+  pose proof (run_roots_events c NL NP P roots init_state [] [] FF eq_refl) as EV. rewrite E in EV.
+  cbn [rres_state s_events init_state app] in EV.
+  assert (T : tinv c st').
+  { pose proof (run_roots_P c (tinv c) (fun st ms H => proj1 (tinv_stack c st ms) H)
+                  (fun p nd b st => handle_file_tinv c p nd b st) roots init_state [] [] (tinv_init c)) as T.
+    rewrite E in T. exact T. }
+  assert (O : forallb observable (s_events st') = true).
+  { rewrite EV, forallb_flat_map. apply forallb_forall. intros t Ht. apply root_events_observable.
+    rewrite forallb_forall in FF. apply FF. exact Ht. }
+  rewrite E. cbn [run_statuses]. destruct roots as [|t roots]; [contradiction|]. destruct M as [_ ->].
+  unfold statuses. rewrite EX. apply map_ext. intros e. rewrite (status_of_trace c st' e T O), EV.
+  rewrite calls_flat_map.
+  assert (EQ : flat_map (fun x => calls (root_events c x)) (t :: roots) = flat_map (fs_calls c) (t :: roots)).
+  { apply flat_map_ext_in. intros t0 Ht. symmetry. apply fs_calls_root_events; try assumption.
+    rewrite forallb_forall in FF. apply FF. exact Ht. }
+  rewrite EQ. reflexivity.
+Qed.
+
+(* ... and does not depend on the order of the roots *)
+Theorem multiroot_status_order_lemma c roots roots' :
+  Permutation roots roots' -> forallb fault_free roots = true -> no_limits c = true -> no_xpanic c -> c_paths c = [] ->
+  roots <> [] -> c_exts c <> [] ->
+  statuses_equiv (run_statuses (run c roots)) (run_statuses (run c roots')).
+Proof.
+  intros HP FF NL NP P NR NE.
+  assert (FF' : forallb fault_free roots' = true) by (rewrite <- (forallb_perm fault_free _ _ HP); exact FF).
+  assert (NR' : roots' <> []) by (intros X; subst; apply Permutation_sym, Permutation_nil in HP; contradiction).
+  rewrite (multiroot_statuses_lemma c roots FF NL NP P NR NE), (multiroot_statuses_lemma c roots' FF' NL NP P NR' NE).
+  unfold statuses_equiv. clear NE. induction (c_exts c) as [|e l IH]; cbn [map]; constructor; [|exact IH].
+  cbn [fst snd]. split; [reflexivity|]. apply expected_status_perm. apply Permutation_flat_map. exact HP.
+Qed.
